@@ -280,3 +280,12 @@ Definition edge_implemented (e : edge) : bool :=
                                       | Some effs => match target effs with Some s' => st_beq s' (snd e) | None => false end
                                       | None => false end) all_op) all_dir.
 Definition graph_complete_b : bool := forallb edge_implemented documented_edges.
+
+(* every documented side effect is part of the method body *)
+Definition effects_ok_b : bool :=
+  forall_sdo (fun s d o => match trans s d o with
+                           | None => true
+                           | Some effs => match target effs with
+                                          | Some s' => implb (dir_ok d s) (forallb (fun r => existsb (effect_beq r) effs) (required s d o s'))
+                                          | None => true end
+                           end).
